@@ -47,16 +47,32 @@ impl<T: Clone> PredictInplace<Array2<f64>, Array1<T>> for Scripted<T> {
     }
 }
 
-fn op_mt(em: &mut Em, tags: Vec<usize>, tab: Vec<Vec<i64>>, adj: Vec<usize>) {
-    let op = format!("mt tags={} tab={} adj={}", list(tags.iter(), |x| x.to_string()), list2(tab.iter().map(|r| r.iter()), |x| x.to_string()), list(adj.iter(), |x| x.to_string()));
-    let valid = adj.iter().all(|a| *a == 0);
+/// `pre`: a caller-supplied target buffer (rows of a 2-d array); `None` = the `Predict` form
+fn op_mt(em: &mut Em, tags: Vec<usize>, tab: Vec<Vec<i64>>, adj: Vec<usize>, pre: Option<Vec<Vec<i64>>>) {
+    let mut op = format!("mt tags={} tab={} adj={}", list(tags.iter(), |x| x.to_string()), list2(tab.iter().map(|r| r.iter()), |x| x.to_string()), list(adj.iter(), |x| x.to_string()));
+    let pre_ok = match &pre {
+        None => true,
+        Some(p) => p.len() == tags.len() && p.iter().all(|r| r.len() == tab.len()),
+    };
+    if let Some(p) = &pre {
+        op.push_str(&format!(" pre={}", list2(p.iter().map(|r| r.iter()), |x| x.to_string())));
+    }
+    let valid = adj.iter().all(|a| *a == 0) && pre_ok;
     let class = format!("multi_target:m={}", if tab.is_empty() { "0" } else { "pos" });
     let body = |ctx: &mut Ctx| {
         let members: Vec<Box<dyn PredictInplace<Array2<f64>, Array1<i64>>>> =
             tab.iter().zip(adj.iter()).map(|(t, a)| Box::new(Scripted { tab: t.clone(), extra: -1, adj: *a, zero: 0i64 }) as Box<dyn PredictInplace<Array2<f64>, Array1<i64>>>).collect();
         let model = MultiTargetModel::new(members);
         let x = tag_rows(&tags);
-        let out: Array2<i64> = model.predict(&x);
+        let out: Array2<i64> = match &pre {
+            None => model.predict(&x),
+            Some(p) => {
+                let ncols = p.first().map(|r| r.len()).unwrap_or(tab.len());
+                let mut y = Array2::from_shape_fn((p.len(), ncols), |(i, j)| p[i][j]);
+                model.predict_inplace(&x, &mut y);
+                y
+            }
+        };
         if valid {
             ctx.require(out.nrows() == tags.len() && out.ncols() == tab.len(), "one_output_per_row", &class, || format!("shape {:?} for n={} m={}", out.shape(), tags.len(), tab.len()));
             if out.nrows() == tags.len() && out.ncols() == tab.len() {
@@ -76,15 +92,19 @@ fn op_mt(em: &mut Em, tags: Vec<usize>, tab: Vec<Vec<i64>>, adj: Vec<usize>) {
     }
 }
 
-fn op_mc(em: &mut Em, tags: Vec<usize>, labels: Vec<usize>, tab: Vec<Vec<u32>>, adj: Vec<usize>) {
-    let op = format!(
+fn op_mc(em: &mut Em, tags: Vec<usize>, labels: Vec<usize>, tab: Vec<Vec<u32>>, adj: Vec<usize>, pre: Option<Vec<usize>>) {
+    let mut op = format!(
         "mc tags={} labels={} tab={} adj={}",
         list(tags.iter(), |x| x.to_string()),
         list(labels.iter(), |x| x.to_string()),
         list2(tab.iter().map(|r| r.iter()), |x| x.to_string()),
         list(adj.iter(), |x| x.to_string())
     );
-    let valid = adj.iter().all(|a| *a == 0) && !tab.is_empty();
+    let pre_ok = pre.as_ref().map(|p| p.len() == tags.len()).unwrap_or(true);
+    if let Some(p) = &pre {
+        op.push_str(&format!(" pre={}", list(p.iter(), |x| x.to_string())));
+    }
+    let valid = adj.iter().all(|a| *a == 0) && !tab.is_empty() && pre_ok;
     let class = "multi_class".to_string();
     let body = |ctx: &mut Ctx| {
         let members: Vec<(usize, Box<dyn PredictInplace<Array2<f64>, Array1<Pr>>>)> = labels
@@ -97,22 +117,44 @@ fn op_mc(em: &mut Em, tags: Vec<usize>, labels: Vec<usize>, tab: Vec<Vec<u32>>, 
             .collect();
         let model = MultiClassModel::new(members);
         let x = tag_rows(&tags);
-        let out: Array1<usize> = model.predict(&x);
+        let out: Array1<usize> = match &pre {
+            None => model.predict(&x),
+            Some(p) => {
+                let mut y = Array1::from(p.clone());
+                model.predict_inplace(&x, &mut y);
+                y
+            }
+        };
         if valid {
             ctx.require(out.len() == tags.len(), "one_output_per_row", &class, || format!("{} outputs for {} rows", out.len(), tags.len()));
             for (i, t) in tags.iter().enumerate() {
                 if i >= out.len() {
                     break;
                 }
-                // label of the first member with the highest probability
-                let mut best = 0;
-                for k in 1..tab.len() {
-                    if tab[k][*t] > tab[best][*t] {
-                        best = k;
-                    }
-                }
-                ctx.require(out[i] == labels[best], "label_of_highest_probability", &class, || format!("row {} (tag {}): got label {}, member {} (label {}) has the highest probability", i, t, out[i], best, labels[best]));
+                // label of a member with the highest probability (the statement fixes no tie-break)
+                let mx = tab.iter().map(|r| r[*t]).max().unwrap();
+                let winners: Vec<usize> = (0..tab.len()).filter(|k| tab[*k][*t] == mx).map(|k| labels[k]).collect();
+                ctx.require(winners.contains(&out[i]), "label_of_highest_probability", &class, || format!("row {} (tag {}): got label {}, the members with the highest probability have labels {:?}", i, t, out[i], winners));
+                // the same row alone must get the same label (ties included)
+                let one = tag_rows(&[*t]);
+                let r: Array1<usize> = model.predict(&one);
+                ctx.require(r.len() == 1 && r[0] == out[i], "batch_eq_rowwise", &class, || format!("row {} (tag {}): label {} in the batch, {:?} alone", i, t, out[i], r));
             }
+        }
+        if valid && out.len() == tags.len() {
+            // a row on which several members tie for the maximum is written as the set of their labels
+            // (when the label returned is one of them): which of them wins is not part of the property
+            let cells: Vec<String> = tags
+                .iter()
+                .zip(out.iter())
+                .map(|(t, l)| {
+                    let mx = tab.iter().map(|r| r[*t]).max().unwrap();
+                    let mut w: Vec<usize> = (0..tab.len()).filter(|k| tab[*k][*t] == mx).map(|k| labels[k]).collect();
+                    w.sort();
+                    if w.len() > 1 && w.contains(l) { format!("t{}", w.iter().map(|x| x.to_string()).collect::<Vec<_>>().join("|")) } else { l.to_string() }
+                })
+                .collect();
+            return format!("ok {}", cells.join(","));
         }
         format!("ok {}", list(out.iter(), |x| x.to_string()))
     };
@@ -146,6 +188,32 @@ fn op_platt(em: &mut Em, a: f64, b: f64, xs: Vec<f64>) {
             ctx.require(t0 == t1 && ps[w[0]] == ps[w[1]] || *ps[w[1]] <= *ps[w[0]] + slack, "monotone_sigmoid", &class, || {
                 format!("t={} -> {}, t={} -> {}", t0, *ps[w[0]], t1, *ps[w[1]])
             });
+        }
+        format!("ok {}", list(ps.iter(), |p| show_pr(*p)))
+    };
+    if finite {
+        em.case_valid(op, &class, body)
+    } else {
+        em.case(op, body)
+    }
+}
+
+/// `platt_predict::<f32>`: `a*x+b` evaluated in f32, no narrowing cast
+fn op_platt32(em: &mut Em, a: f32, b: f32, xs: Vec<f32>) {
+    let op = format!("platt32 a={} b={} xs={}", hex32(a), hex32(b), list(xs.iter(), |x| hex32(*x)));
+    let finite = a.is_finite() && b.is_finite() && xs.iter().all(|x| x.is_finite() && (a * x + b).is_finite());
+    let class = format!("platt32:a={}", if a > 0.0 { "pos" } else if a < 0.0 { "neg" } else { "zero" });
+    let body = |ctx: &mut Ctx| {
+        let ps: Vec<Pr> = xs.iter().map(|x| platt_predict(*x, a, b)).collect();
+        for (x, p) in xs.iter().zip(ps.iter()) {
+            ctx.require(**p >= 0.0 && **p <= 1.0, "probability_in_unit_interval", &class, || format!("x={} -> {}", x, **p));
+        }
+        let mut idx: Vec<usize> = (0..xs.len()).collect();
+        idx.sort_by(|i, j| (a * xs[*i] + b).partial_cmp(&(a * xs[*j] + b)).unwrap());
+        for w in idx.windows(2) {
+            let (t0, t1) = (a * xs[w[0]] + b, a * xs[w[1]] + b);
+            let slack = 4.0 * f32::EPSILON * *ps[w[0]];
+            ctx.require(t0 == t1 && ps[w[0]] == ps[w[1]] || *ps[w[1]] <= *ps[w[0]] + slack, "monotone_sigmoid", &class, || format!("t={} -> {}, t={} -> {}", t0, *ps[w[0]], t1, *ps[w[1]]));
         }
         format!("ok {}", list(ps.iter(), |p| show_pr(*p)))
     };
@@ -204,6 +272,46 @@ pub fn batch_from(rng: &mut Rng, pool: &Array2<f64>, em: &mut Em) -> Array2<f64>
     pool.select(Axis(0), &idx)
 }
 
+/// length of a caller-supplied buffer for an `n`-row batch: right most of the time, now and then off by
+/// one (the shape assert at the head of every `predict_inplace`, outside the property's guard)
+fn pre_len(rng: &mut Rng, em: &mut Em, n: usize, what: &str) -> usize {
+    if rng.chance(1, 10) {
+        em.count(&format!("{}:inplace_bad_len", what));
+        if n > 0 && rng.coin() { n - 1 } else { n + 1 }
+    } else {
+        em.count(&format!("{}:inplace_prefilled", what));
+        n
+    }
+}
+
+/// row i of the batch result must be the result of the one-row batch [row i] (4 ulps / 1e-12 for floats
+/// that went through differently ordered reductions)
+fn rowwise_f(ctx: &mut Ctx, kind: &str, batch: &Array2<f64>, out: &[Vec<f64>], one: &dyn Fn(&Array2<f64>) -> Vec<Vec<f64>>) {
+    for i in 0..batch.nrows().min(out.len()) {
+        let r = one(&batch.slice(ndarray::s![i..i + 1, ..]).to_owned());
+        let same = r.len() == 1 && r[0].len() == out[i].len() && r[0].iter().zip(out[i].iter()).all(|(a, b)| sweep::fclose(*a, *b));
+        ctx.require(same, "batch_eq_rowwise", kind, || format!("row {} alone {:?} vs in the batch {:?}", i, r, out[i]));
+    }
+}
+
+/// membership cells of a k-means response: a row exactly equidistant (sequential f64 sum of squares)
+/// from several nearest centroids is written as the set of their indices when the index returned is
+/// one of them — which of them wins is not part of the property
+fn kmeans_cells(cents: &Array2<f64>, batch: &Array2<f64>, out: &Array1<usize>) -> String {
+    let cells: Vec<String> = batch
+        .rows()
+        .into_iter()
+        .zip(out.iter())
+        .map(|(r, l)| {
+            let d: Vec<f64> = cents.rows().into_iter().map(|c| c.iter().zip(r.iter()).fold(0.0, |s, (a, b)| s + (a - b) * (a - b))).collect();
+            let dm = d.iter().cloned().fold(f64::INFINITY, f64::min);
+            let w: Vec<usize> = (0..d.len()).filter(|k| d[*k] == dm).collect();
+            if w.len() > 1 && w.contains(l) { format!("t{}", w.iter().map(|x| x.to_string()).collect::<Vec<_>>().join("|")) } else { l.to_string() }
+        })
+        .collect();
+    cells.join(",")
+}
+
 fn op_kmeans(em: &mut Em, rng: &mut Rng) {
     use linfa_clustering::KMeans;
     let p = 1 + rng.below(3);
@@ -239,8 +347,31 @@ fn op_kmeans(em: &mut Em, rng: &mut Rng) {
             let dm = d.iter().cloned().fold(f64::INFINITY, f64::min);
             ctx.require(d[out[i]] <= dm + 1e-9 * (1.0 + dm), "nearest_centroid", "kmeans", || format!("row {} assigned to {} at {}, nearest at {}", i, out[i], d[out[i]], dm));
         }
-        format!("ok {}", list(out.iter(), |x| x.to_string()))
+        for i in 0..batch.nrows().min(out.len()) {
+            let r: Array1<usize> = model.predict(&batch.slice(ndarray::s![i..i + 1, ..]).to_owned());
+            ctx.require(r.len() == 1 && r[0] == out[i], "batch_eq_rowwise", "kmeans", || format!("row {} alone {:?} vs in the batch {}", i, r, out[i]));
+        }
+        format!("ok {}", kmeans_cells(&cents, &batch, &out))
     });
+    // the in-place form into a pre-filled membership buffer
+    let pl = pre_len(rng, em, batch.nrows(), "kmeans");
+    let pre: Vec<usize> = (0..pl).map(|i| 70 + i).collect();
+    let ok = pl == batch.nrows();
+    let op = format!("kmeans cents={} rows={} pre={}", hexrows(&cents), hexrows(&batch), list(pre.iter(), |x| x.to_string()));
+    let body = |ctx: &mut Ctx| {
+        let mut y = Array1::from(pre.clone());
+        model.predict_inplace(&batch, &mut y);
+        if ok {
+            let fresh: Array1<usize> = model.predict(&batch);
+            ctx.require(y == fresh, "inplace_into_supplied_buffer", "kmeans", || format!("pre-filled buffer gives {:?}, a fresh one {:?}", y, fresh));
+        }
+        if ok { format!("ok {}", kmeans_cells(&cents, &batch, &y)) } else { format!("ok {}", list(y.iter(), |x| x.to_string())) }
+    };
+    if ok {
+        em.case_valid(op, "kmeans:inplace", body)
+    } else {
+        em.case(op, body)
+    }
 }
 
 fn show_t(x: f64) -> String {
@@ -258,7 +389,7 @@ fn op_affine(em: &mut Em, rng: &mut Rng) {
     let batch = batch_from(rng, &pool, em);
     let enet = rng.chance(1, 3);
     let (w, b, kind): (Array1<f64>, f64, &str);
-    let pred: Box<dyn Fn(&Array2<f64>) -> Array1<f64>>;
+    let pred: std::rc::Rc<dyn Fn(&Array2<f64>, Option<Array1<f64>>) -> Array1<f64>>;
     if enet {
         let m = match linfa_elasticnet::ElasticNet::params().penalty(0.125).l1_ratio(0.5).fit(&ds) {
             Ok(m) => m,
@@ -270,7 +401,13 @@ fn op_affine(em: &mut Em, rng: &mut Rng) {
         w = m.hyperplane().clone();
         b = m.intercept();
         kind = "enet";
-        pred = Box::new(move |q| m.predict(q));
+        pred = std::rc::Rc::new(move |q, pre| match pre {
+            None => m.predict(q),
+            Some(mut y) => {
+                m.predict_inplace(q, &mut y);
+                y
+            }
+        });
     } else {
         let m = match linfa_linear::LinearRegression::new().with_intercept(rng.coin()).fit(&ds) {
             Ok(m) => m,
@@ -282,15 +419,64 @@ fn op_affine(em: &mut Em, rng: &mut Rng) {
         w = m.params().clone();
         b = m.intercept();
         kind = "ols";
-        pred = Box::new(move |q| m.predict(q));
+        pred = std::rc::Rc::new(move |q, pre| match pre {
+            None => m.predict(q),
+            Some(mut y) => {
+                m.predict_inplace(q, &mut y);
+                y
+            }
+        });
     }
     em.count(&format!("affine:{}", kind));
     let op = format!("affine kind={} w={} b={} rows={}", kind, list(w.iter(), |x| hex64(*x)), hex64(b), hexrows(&batch));
     em.case_valid(op, &format!("affine:{}", kind), |ctx| {
-        let out = pred(&batch);
+        let out = pred(&batch, None);
         ctx.require(out.len() == batch.nrows(), "one_output_per_row", kind, || format!("{} outputs for {} rows", out.len(), batch.nrows()));
+        let rows: Vec<Vec<f64>> = out.iter().map(|x| vec![*x]).collect();
+        rowwise_f(ctx, kind, &batch, &rows, &|q| pred(q, None).iter().map(|x| vec![*x]).collect());
         format!("ok {}", list(out.iter(), |x| show_t(*x)))
     });
+    let pl = pre_len(rng, em, batch.nrows(), "affine");
+    let pre: Vec<f64> = (0..pl).map(|i| -7.25 - 1.5 * i as f64).collect();
+    let ok = pl == batch.nrows();
+    let op = format!("affine kind={} w={} b={} rows={} pre={}", kind, list(w.iter(), |x| hex64(*x)), hex64(b), hexrows(&batch), list(pre.iter(), |x| hex64(*x)));
+    let body = |ctx: &mut Ctx| {
+        let y = pred(&batch, Some(Array1::from(pre.clone())));
+        if ok {
+            let fresh = pred(&batch, None);
+            ctx.require(y.len() == fresh.len() && y.iter().zip(fresh.iter()).all(|(a, b)| a.to_bits() == b.to_bits()), "inplace_into_supplied_buffer", kind, || format!("pre-filled buffer gives {:?}, a fresh one {:?}", y, fresh));
+        }
+        format!("ok {}", list(y.iter(), |x| show_t(*x)))
+    };
+    if ok {
+        em.case_valid(op, &format!("affine:{}:inplace", kind), body)
+    } else {
+        em.case(op, body)
+    }
+}
+
+/// the in-place case of a `linmap` op: `predict_inplace` into a pre-filled `(n, q)` buffer (now and then of
+/// the wrong shape)
+fn linmap_inplace(em: &mut Em, rng: &mut Rng, kind: &str, head: &str, batch: &Array2<f64>, q: usize, run: &dyn Fn(&Array2<f64>, Option<Array2<f64>>) -> Array2<f64>) {
+    let n = batch.nrows();
+    let bad = rng.chance(1, 10);
+    let (pn, pq) = if !bad { (n, q) } else if n > 0 && rng.coin() { (n, q + 1) } else { (n + 1, q) };
+    em.count(&format!("linmap:{}", if bad { "inplace_bad_shape" } else { "inplace_prefilled" }));
+    let pre = Array2::from_shape_fn((pn, pq), |(i, j)| -7.25 - 1.5 * i as f64 + 0.5 * j as f64);
+    let op = format!("{} pre={}", head, hexrows(&pre));
+    let body = |ctx: &mut Ctx| {
+        let y = run(batch, Some(pre.clone()));
+        if !bad {
+            let fresh = run(batch, None);
+            ctx.require(y.dim() == fresh.dim() && y.iter().zip(fresh.iter()).all(|(a, b)| a.to_bits() == b.to_bits()), "inplace_into_supplied_buffer", kind, || format!("pre-filled buffer gives {:?}, a fresh one {:?}", y, fresh));
+        }
+        format!("ok {}", list2(y.rows().into_iter().map(|r| r.to_vec()), |x: f64| show_t(x)))
+    };
+    if !bad {
+        em.case_valid(op, &format!("linmap:{}:inplace", kind), body)
+    } else {
+        em.case(op, body)
+    }
 }
 
 fn op_linmap(em: &mut Em, rng: &mut Rng) {
@@ -320,11 +506,23 @@ fn op_linmap(em: &mut Em, rng: &mut Rng) {
             list(0..comps.nrows(), |_| hex64(0.0)),
             hexrows(&batch)
         );
-        em.case_valid(op, "linmap:pca", |ctx| {
-            let out: Array2<f64> = m.predict(&batch);
+        let run = |q: &Array2<f64>, pre: Option<Array2<f64>>| -> Array2<f64> {
+            match pre {
+                None => m.predict(q),
+                Some(mut y) => {
+                    m.predict_inplace(q, &mut y);
+                    y
+                }
+            }
+        };
+        em.case_valid(op.clone(), "linmap:pca", |ctx| {
+            let out: Array2<f64> = run(&batch, None);
             ctx.require(out.nrows() == batch.nrows(), "one_output_per_row", "pca", || format!("{} outputs for {} rows", out.nrows(), batch.nrows()));
+            let rows: Vec<Vec<f64>> = out.rows().into_iter().map(|r| r.to_vec()).collect();
+            rowwise_f(ctx, "pca", &batch, &rows, &|q| run(q, None).rows().into_iter().map(|r| r.to_vec()).collect());
             format!("ok {}", list2(out.rows().into_iter().map(|r| r.to_vec()), |x: f64| show_t(x)))
         });
+        linmap_inplace(em, rng, "pca", &op, &batch, comps.nrows(), &run);
     } else {
         use linfa_pls::PlsRegression;
         let t = 1 + rng.below(2);
@@ -356,11 +554,23 @@ fn op_linmap(em: &mut Em, rng: &mut Rng) {
             list(ymean.iter(), |x| hex64(*x)),
             hexrows(&batch)
         );
-        em.case_valid(op, "linmap:pls", |ctx| {
-            let out: Array2<f64> = m.predict(&batch);
+        let run = |q: &Array2<f64>, pre: Option<Array2<f64>>| -> Array2<f64> {
+            match pre {
+                None => m.predict(q),
+                Some(mut y) => {
+                    m.predict_inplace(q, &mut y);
+                    y
+                }
+            }
+        };
+        em.case_valid(op.clone(), "linmap:pls", |ctx| {
+            let out: Array2<f64> = run(&batch, None);
             ctx.require(out.nrows() == batch.nrows(), "one_output_per_row", "pls", || format!("{} outputs for {} rows", out.nrows(), batch.nrows()));
+            let rows: Vec<Vec<f64>> = out.rows().into_iter().map(|r| r.to_vec()).collect();
+            rowwise_f(ctx, "pls", &batch, &rows, &|q| run(q, None).rows().into_iter().map(|r| r.to_vec()).collect());
             format!("ok {}", list2(out.rows().into_iter().map(|r| r.to_vec()), |x: f64| show_t(x)))
         });
+        linmap_inplace(em, rng, "pls", &op, &batch, t, &run);
     }
 }
 
@@ -401,8 +611,30 @@ fn op_tree(em: &mut Em, rng: &mut Rng) {
     em.case_valid(op, "tree", |ctx| {
         let out: Array1<usize> = m.predict(&batch);
         ctx.require(out.len() == batch.nrows(), "one_output_per_row", "tree", || format!("{} outputs for {} rows", out.len(), batch.nrows()));
+        for i in 0..batch.nrows().min(out.len()) {
+            let r: Array1<usize> = m.predict(&batch.slice(ndarray::s![i..i + 1, ..]).to_owned());
+            ctx.require(r.len() == 1 && r[0] == out[i], "batch_eq_rowwise", "tree", || format!("row {} alone {:?} vs in the batch {}", i, r, out[i]));
+        }
         format!("ok {}", list(out.iter(), |x| x.to_string()))
     });
+    let pl = pre_len(rng, em, batch.nrows(), "tree");
+    let pre: Vec<usize> = (0..pl).map(|i| 70 + i).collect();
+    let ok = pl == batch.nrows();
+    let op = format!("tree t={} rows={} pre={}", toks.join(","), hexrows(&batch), list(pre.iter(), |x| x.to_string()));
+    let body = |ctx: &mut Ctx| {
+        let mut y = Array1::from(pre.clone());
+        m.predict_inplace(&batch, &mut y);
+        if ok {
+            let fresh: Array1<usize> = m.predict(&batch);
+            ctx.require(y == fresh, "inplace_into_supplied_buffer", "tree", || format!("pre-filled buffer gives {:?}, a fresh one {:?}", y, fresh));
+        }
+        format!("ok {}", list(y.iter(), |x| x.to_string()))
+    };
+    if ok {
+        em.case_valid(op, "tree:inplace", body)
+    } else {
+        em.case(op, body)
+    }
 }
 
 fn op_iso(em: &mut Em, rng: &mut Rng) {
@@ -428,7 +660,8 @@ fn op_iso(em: &mut Em, rng: &mut Rng) {
     // queries: knots, between knots, outside the range
     let mut pool = Array2::zeros((8, 1));
     for i in 0..8 {
-        pool[(i, 0)] = match rng.below(3) {
+        pool[(i, 0)] = match rng.below(if i == 7 { 4 } else { 3 }) {
+            3 => f64::NAN, // an unordered query: neither branch of the clamp, no knot found
             0 => reg[rng.below(reg.len())],
             1 => rng.range(-20, 20) as f64 / 4.0,
             _ => {
@@ -442,8 +675,30 @@ fn op_iso(em: &mut Em, rng: &mut Rng) {
     em.case_valid(op, "iso", |ctx| {
         let out: Array1<f64> = m.predict(&batch);
         ctx.require(out.len() == batch.nrows(), "one_output_per_row", "iso", || format!("{} outputs for {} rows", out.len(), batch.nrows()));
+        for i in 0..batch.nrows().min(out.len()) {
+            let r: Array1<f64> = m.predict(&batch.slice(ndarray::s![i..i + 1, ..]).to_owned());
+            ctx.require(r.len() == 1 && r[0].to_bits() == out[i].to_bits(), "batch_eq_rowwise", "iso", || format!("row {} alone {:?} vs in the batch {}", i, r, out[i]));
+        }
         format!("ok {}", list(out.iter(), |x| hex64c(*x)))
     });
+    let pl = pre_len(rng, em, batch.nrows(), "iso");
+    let pre: Vec<f64> = (0..pl).map(|i| -7.25 - 1.5 * i as f64).collect();
+    let ok = pl == batch.nrows();
+    let op = format!("iso reg={} resp={} rows={} pre={}", list(reg.iter(), |x| hex64(*x)), list(resp.iter(), |x| hex64(*x)), hexrows(&batch), list(pre.iter(), |x| hex64(*x)));
+    let body = |ctx: &mut Ctx| {
+        let mut y = Array1::from(pre.clone());
+        m.predict_inplace(&batch, &mut y);
+        if ok {
+            let fresh: Array1<f64> = m.predict(&batch);
+            ctx.require(y.len() == fresh.len() && y.iter().zip(fresh.iter()).all(|(a, b)| a.to_bits() == b.to_bits()), "inplace_into_supplied_buffer", "iso", || format!("pre-filled buffer gives {:?}, a fresh one {:?}", y, fresh));
+        }
+        format!("ok {}", list(y.iter(), |x| hex64c(*x)))
+    };
+    if ok {
+        em.case_valid(op, "iso:inplace", body)
+    } else {
+        em.case(op, body)
+    }
 }
 
 fn gen_wrappers(em: &mut Em, rng: &mut Rng) {
@@ -464,11 +719,33 @@ fn gen_wrappers(em: &mut Em, rng: &mut Rng) {
     if rng.coin() {
         em.count(&format!("mt:n={} m={}", if n == 0 { "0" } else if n == 1 { "1" } else { "2+" }, if m == 0 { "0" } else if m == 1 { "1" } else { "2+" }));
         let tab: Vec<Vec<i64>> = (0..m).map(|j| (0..u).map(|t| (100 * (j + 1) + t) as i64 * if rng.chance(1, 10) { -1 } else { 1 }).collect()).collect();
-        op_mt(em, tags, tab, adj);
+        // a third of the cases go through `predict_inplace` into a pre-filled buffer (junk content,
+        // now and then of the wrong shape: the documented shape assert)
+        let pre = if rng.chance(1, 3) {
+            let bad = rng.chance(1, 8);
+            let (pn, pm) = if !bad { (n, m) } else if n > 0 && rng.coin() { (n, m + 1) } else { (n + 1, m) };
+            em.count(if bad { "mt:inplace_bad_shape" } else { "mt:inplace_prefilled" });
+            Some((0..pn).map(|i| (0..pm).map(|j| -7 - (3 * i + j) as i64).collect()).collect())
+        } else {
+            None
+        };
+        op_mt(em, tags, tab, adj, pre);
     } else {
         // few distinct probabilities so that ties between members are frequent
         let levels = [0u32, 16, 32, 32, 48, 64];
-        let tab: Vec<Vec<u32>> = (0..m).map(|_| (0..u).map(|_| *rng.pick(&levels)).collect()).collect();
+        let mut tab: Vec<Vec<u32>> = (0..m).map(|_| (0..u).map(|_| *rng.pick(&levels)).collect()).collect();
+        if adj.iter().any(|a| *a != 0) {
+            // ill-behaved members are outside the property and compared literally (truncation / panic
+            // branches): keep their probabilities tie-free, so that the tie-break — which the statement
+            // does not fix — never decides such a comparison
+            for t in 0..u {
+                let mut order: Vec<u32> = (0..m as u32).collect();
+                rng.shuffle(&mut order);
+                for j in 0..m {
+                    tab[j][t] = 8 * order[j] + rng.below(8) as u32;
+                }
+            }
+        }
         let mut labels: Vec<usize> = (0..m).map(|j| 10 + j).collect();
         rng.shuffle(&mut labels);
         let ties = (0..u).any(|t| {
@@ -476,7 +753,15 @@ fn gen_wrappers(em: &mut Em, rng: &mut Rng) {
             tab.iter().filter(|r| r[t] == mx).count() > 1
         });
         em.count(if ties { "mc:with_ties" } else { "mc:no_ties" });
-        op_mc(em, tags, labels, tab, adj);
+        let pre = if rng.chance(1, 3) {
+            let bad = rng.chance(1, 8);
+            let pn = if !bad { n } else if n > 0 && rng.coin() { n - 1 } else { n + 1 };
+            em.count(if bad { "mc:inplace_bad_len" } else { "mc:inplace_prefilled" });
+            Some((0..pn).map(|i| 900 + i).collect())
+        } else {
+            None
+        };
+        op_mc(em, tags, labels, tab, adj, pre);
     }
 }
 
@@ -499,6 +784,10 @@ fn gen_platt(em: &mut Em, rng: &mut Rng) {
             _ => (rng.unit() - 0.5) * 20.0,
         })
         .collect();
+    if rng.chance(1, 4) {
+        // the f32 instantiation on the same numbers (rounded to f32 first)
+        op_platt32(em, a as f32, b as f32, xs.iter().map(|x| *x as f32).collect());
+    }
     op_platt(em, a, b, xs);
 }
 
@@ -509,7 +798,8 @@ pub fn run(em: &mut Em, rng: &mut Rng) {
         for m in 0..=4usize {
             let tags: Vec<usize> = (0..n).map(|i| (i * 2 + 1) % n.max(1)).collect();
             let tab: Vec<Vec<i64>> = (0..m).map(|j| (0..n.max(1)).map(|t| (100 * (j + 1) + t) as i64).collect()).collect();
-            op_mt(em, tags, tab, vec![0; m]);
+            op_mt(em, tags.clone(), tab.clone(), vec![0; m], None);
+            op_mt(em, tags, tab, vec![0; m], Some((0..n).map(|i| (0..m).map(|j| -7 - (3 * i + j) as i64).collect()).collect()));
         }
     }
     for _ in 0..400 * scale {
@@ -521,6 +811,8 @@ pub fn run(em: &mut Em, rng: &mut Rng) {
     // the boundary values of the sigmoid
     op_platt(em, 1.0, 0.0, vec![0.0, -0.0, 1e-30, -1e-30, 88.0, 89.0, 104.0, -104.0, 1e30, -1e30, 3.5e38, -3.5e38]);
     op_platt(em, -1.0, 0.0, vec![0.0, 17.0, -17.0, 87.5, -87.5]);
+    op_platt32(em, 1.0, 0.0, vec![0.0, -0.0, 1e-30, -1e-30, 88.0, 89.0, 104.0, -104.0, 1e30, -1e30, 3.0e38, -3.0e38]);
+    op_platt32(em, -1.0, 0.0, vec![0.0, 17.0, -17.0, 87.5, -87.5, f32::NAN]);
     op_platt(em, 1.0, 0.0, vec![f64::NAN]);
     op_platt(em, 1.0, 0.0, vec![f64::INFINITY, f64::NEG_INFINITY]);
     for _ in 0..120 * scale {
